@@ -3,6 +3,8 @@ package main
 import (
 	"bytes"
 	"fmt"
+	"github.com/fxamacker/cbor/v2"
+	"math/big"
 
 	cose "github.com/veraison/go-cose"
 )
@@ -111,6 +113,29 @@ func runC08(c *Collector, r *Rng, thorough bool) {
 		uh := cose.UnprotectedHeader(genGoBucket(r, cfg, false, 0, false, pick(r, []int{0, 1, 2})))
 		op, obs, out, err, p = execEncUnprot(uh)
 		c08Check(c, "enc/unprotected", op, obs, out, err, p, "DUnprot", func() ([]byte, error) { return uh.MarshalCBOR() }, reps, inDataModel(map[any]any(uh), 0))
+		// ---- values that only the protected bucket can carry across the wire (tags are refused elsewhere by the message
+		// decoders): integers beyond int64 and tagged items; whatever the protected encoder emits, its decoder accepts ----
+		if i%6 == 0 {
+			bigv := new(big.Int)
+			bigv.SetString(pick(r, []string{"9223372036854775808", "18446744073709551615", "18446744073709551616", "-9223372036854775809", "-18446744073709551617"}), 10)
+			extra := pick(r, []any{*bigv, bigv, cbor.Tag{Number: 32, Content: "https://example.org/x"}, cbor.Tag{Number: 100, Content: int64(7)}, []any{*bigv}})
+			ph := cose.ProtectedHeader{cose.HeaderLabelAlgorithm: alg, int64(-70030): extra}
+			out, err := ph.MarshalCBOR()
+			c.Eval("enc/protected-tagged-values", fmt.Sprintf("%T", extra), err == nil)
+			if err == nil {
+				var back cose.ProtectedHeader
+				if derr := back.UnmarshalCBOR(out); derr != nil || len(back) != 2 {
+					c.Fail("C08/not-decodable", fmt.Sprintf("ProtectedHeader.MarshalCBOR emitted %x for a bucket holding %T, ProtectedHeader.UnmarshalCBOR says: %v", out, extra, derr), map[string]any{"out": hx(out)})
+				}
+				msg := &cose.Sign1Message{Headers: cose.Headers{Protected: ph}, Payload: []byte("p"), Signature: []byte{1}}
+				if mb, err := msg.MarshalCBOR(); err == nil {
+					var mback cose.Sign1Message
+					if derr := mback.UnmarshalCBOR(mb); derr != nil {
+						c.Fail("C08/not-decodable", fmt.Sprintf("Sign1Message.MarshalCBOR emitted %x, UnmarshalCBOR says: %v", mb, derr), map[string]any{"out": hx(mb)})
+					}
+				}
+			}
+		}
 		// ---- messages ----
 		deepV := func() any { // a deeply nested extension parameter: the encoders take any depth the decoders admit
 			var v any = int64(1)
@@ -642,6 +667,20 @@ func runC09(c *Collector, r *Rng, thorough bool) {
 			c09Cleared(c, kind, data, rep)
 			c09Partial(c, kind, data, d.reenc, rep)
 		}
+	}
+	// IV in one bucket and Partial IV in the other, in every layer: refused by the decoders; if one of them ever
+	// accepts such a message it must also be able to produce its canonical form
+	for _, cs := range []struct{ kind, hex string }{
+		{"DSign1", "d28444a1054101a1064102f64100"}, {"DSign1", "d28444a1064101a1054102f64100"}, {"DSign1U", "8444a1054101a1064102f64100"}, {"DSignature", "8344a1054101a10641024100"},
+		{"DSignMsg", "d8628444a1054101a1064102f6818340a04100"}, {"DSignMsg", "d8628440a0f6818344a1064101a10541024100"}, {"DSign1", "d28440a1078344a1054101a10641024100f64100"},
+	} {
+		data := unhex(cs.hex)
+		d := decodeCase(c, "iv-split/"+cs.kind, cs.kind, data)
+		if d.err != nil || d.paniced {
+			continue
+		}
+		c09Cleared(c, cs.kind, data, map[string]any{"kind": cs.kind, "data": cs.hex})
+		c09Partial(c, cs.kind, data, d.reenc, map[string]any{"kind": cs.kind, "data": cs.hex})
 	}
 	// registered and unregistered alg values (the reserved value 0, private use, large) in the protected bucket of every
 	// layer: accepted on decoding means encodable again from the decoded form
